@@ -46,6 +46,7 @@ EXPECT = {
     'X2b': [('FixtureShared::Lookup', 'strchr')],
     'X3': [('FixtureShared::WriteThenThrow', 'out')],
     'X4': [('FixtureShared::NanThrows', 'lat@'), ('FixtureShared::NanThrowsViaHelper', 'lon@')],
+    'NAN2': [('FixtureShared::NanToPole', 'lat@')],
     'X9': [('FixtureShared::HalfFilled', 'buf')],
     'X10': [('FixtureShared::Decode', 'lat')],
     'S2': [('FixtureConic::Forward', 'gamma')],
@@ -110,6 +111,8 @@ def run_controls(rules):
             res = exc.rule_X3(fx, None)[0]
         elif r == 'X4':
             res = exc.rule_X4(fx, None)[0]
+        elif r == 'NAN2':
+            res = exc.rule_NAN2(fx, None)[0]
         elif r == 'X6':
             res = exc.rule_X6(fx, None)[0]
         elif r == 'X9':
